@@ -35,6 +35,7 @@ import (
 	"time"
 
 	"github.com/tjfoc/gmsm/gmtls"
+	"github.com/tjfoc/gmsm/x509"
 	"verifharness/internal/hx"
 )
 
@@ -139,42 +140,47 @@ func payloadBytes(seed, dir, n int) []byte {
 	return b
 }
 
-type rw interface {
+type rwc interface {
 	io.Reader
 	io.Writer
+	Close() error
+}
+
+func writeFragments(c io.Writer, out []byte, r *hx.Rng) bool {
+	rest := out
+	for len(rest) > 0 {
+		var n int
+		switch r.Intn(6) {
+		case 0:
+			n = 1
+		case 1:
+			n = 1 + r.Intn(64)
+		case 2:
+			n = 16384
+		case 3:
+			n = 16385 + r.Intn(40000)
+		default:
+			n = 1 + r.Intn(9000)
+		}
+		if n > len(rest) {
+			n = len(rest)
+		}
+		if _, err := c.Write(rest[:n]); err != nil {
+			return false
+		}
+		rest = rest[n:]
+	}
+	return true
 }
 
 // write out in random fragments while reading in; both must arrive exactly
-func transfer(c rw, out []byte, wantIn []byte, r *hx.Rng) (ok bool, timeout bool) {
+func transfer(c rwc, out []byte, wantIn []byte, r *hx.Rng) (ok bool, timeout bool) {
 	var wg sync.WaitGroup
-	werr := false
+	wok := true
 	wg.Add(1)
 	go func() {
 		defer wg.Done()
-		rest := out
-		for len(rest) > 0 {
-			var n int
-			switch r.Intn(6) {
-			case 0:
-				n = 1
-			case 1:
-				n = 1 + r.Intn(64)
-			case 2:
-				n = 16384
-			case 3:
-				n = 16385 + r.Intn(40000)
-			default:
-				n = 1 + r.Intn(9000)
-			}
-			if n > len(rest) {
-				n = len(rest)
-			}
-			if _, err := c.Write(rest[:n]); err != nil {
-				werr = true
-				return
-			}
-			rest = rest[n:]
-		}
+		wok = writeFragments(c, out, r)
 	}()
 	buf := make([]byte, len(wantIn))
 	_, err := io.ReadFull(c, buf)
@@ -182,7 +188,54 @@ func transfer(c rw, out []byte, wantIn []byte, r *hx.Rng) (ok bool, timeout bool
 	if err != nil {
 		return false, isTimeout(err)
 	}
-	return !werr && bytes.Equal(buf, wantIn), false
+	return wok && bytes.Equal(buf, wantIn), false
+}
+
+// close mode: first the reader's payload travels to the closer; then the closer writes its payload and closes
+// at once, and the reader - only after that - drains the stream with a small buffer until io.EOF.
+// Everything written must have been received when EOF is reported.
+func transferClose(c rwc, closer bool, out, wantIn []byte, rbuf int, r *hx.Rng, closed chan struct{}) (ok bool, timeout bool) {
+	if closer {
+		buf := make([]byte, len(wantIn))
+		if _, err := io.ReadFull(c, buf); err != nil {
+			close(closed)
+			return false, isTimeout(err)
+		}
+		wok := true
+		if r.Intn(3) == 0 {
+			wok = writeFragments(c, out, r)
+		} else if _, err := c.Write(out); err != nil {
+			wok = false
+		}
+		cerr := c.Close()
+		close(closed)
+		return wok && cerr == nil && bytes.Equal(buf, wantIn), false
+	}
+	if !writeFragments(c, out, r) {
+		return false, false
+	}
+	select {
+	case <-closed:
+	case <-time.After(20 * time.Second):
+		return false, true
+	}
+	time.Sleep(40 * time.Millisecond) // let the last record and the close_notify alert arrive together
+	var got []byte
+	buf := make([]byte, rbuf)
+	for {
+		n, err := c.Read(buf)
+		got = append(got, buf[:n]...)
+		if err == io.EOF {
+			break
+		}
+		if err != nil {
+			return false, isTimeout(err)
+		}
+		if len(got) > len(wantIn) {
+			return false, false
+		}
+	}
+	return bytes.Equal(got, wantIn), false
 }
 
 type runRes struct {
@@ -215,106 +268,55 @@ type caseA struct {
 	callbacks, tickets            bool
 	peer                          string
 	c2s, s2c, seed                int
+	pool                          bool   // ClientCAs holds the CAs (else: an empty pool)
+	conns                         int    // connections made one after the other with the same configurations / client cache
+	closer                        string // "-" | "c" | "s": that side closes right after its last write
+	rbuf                          int    // read buffer of the other side in close mode
 }
 
-func runPair(a caseA, capture bool) (res runRes) {
-	kl := &keyLog{}
-	deadline := 25 * time.Second
-	c2s, s2c := payloadBytes(a.seed, 1, a.c2s), payloadBytes(a.seed, 2, a.s2c)
-	ln, err := net.Listen("tcp", "127.0.0.1:0")
-	must(err)
-	defer ln.Close()
-	done := make(chan side, 1)
-	go func() {
-		var s side
-		defer func() {
-			if e := recover(); e != nil {
-				s.err, s.panicky = fmt.Sprint("PANIC: ", e), true
-			}
-			done <- s
-		}()
-		ln.(*net.TCPListener).SetDeadline(time.Now().Add(deadline))
-		raw, e := ln.Accept()
-		if e != nil {
-			s.err = "accept: " + e.Error()
-			return
+// the configurations of one case: they persist over its connections (ticket keys, client session cache)
+type pairEnv struct {
+	kl   *keyLog
+	gSrv *gmtls.Config
+	sSrv *tls.Config
+	gCli *gmtls.Config
+	sCli *tls.Config
+}
+
+func newEnv(a caseA) *pairEnv {
+	e := &pairEnv{kl: &keyLog{}}
+	if a.peer == "gs" {
+		pool := stdPool
+		if !a.pool {
+			pool = stdx509.NewCertPool()
 		}
-		defer raw.Close()
-		raw.SetDeadline(time.Now().Add(deadline))
-		rng := hx.NewRng(uint64(a.seed)*2 + 1)
-		if a.peer == "gs" {
-			cfg := &tls.Config{Certificates: []tls.Certificate{stdRSA}, MinVersion: tls.VersionTLS10, MaxVersion: tls.VersionTLS12,
-				CipherSuites: stdSuites(a.ssuites), ClientAuth: tls.ClientAuthType(a.auth), ClientCAs: stdPool,
-				SessionTicketsDisabled: !a.tickets}
-			srv := tls.Server(raw, cfg)
-			if e := srv.Handshake(); e != nil {
-				s.err, s.timeout = "hs: "+e.Error(), isTimeout(e)
-				return
-			}
-			st := srv.ConnectionState()
-			s.vers, s.suite, s.peer = st.Version, st.CipherSuite, rawsS(st)
-			s.ekm, _ = st.ExportKeyingMaterial(ekmLabel, nil, 32)
-			s.dataOK, s.timeout = transfer(srv, s2c, c2s, rng)
-			return
-		}
+		e.sSrv = &tls.Config{Certificates: []tls.Certificate{stdRSA}, MinVersion: tls.VersionTLS10, MaxVersion: tls.VersionTLS12,
+			CipherSuites: stdSuites(a.ssuites), ClientAuth: tls.ClientAuthType(a.auth), ClientCAs: pool,
+			SessionTicketsDisabled: !a.tickets}
+	} else {
 		cfg := newServer(a.mode, a.callbacks)
+		if !a.pool {
+			cfg.ClientCAs = x509.NewCertPool()
+		}
 		cfg.CipherSuites, cfg.PreferServerCipherSuites = parseSuites(a.ssuites), a.prefer
-		cfg.ClientAuth, cfg.SessionTicketsDisabled, cfg.KeyLogWriter = gmtls.ClientAuthType(a.auth), !a.tickets, kl
-		srv := gmtls.Server(raw, cfg)
-		if e := srv.Handshake(); e != nil {
-			s.err, s.timeout = "hs: "+e.Error(), isTimeout(e)
-			return
+		cfg.ClientAuth, cfg.SessionTicketsDisabled, cfg.KeyLogWriter = gmtls.ClientAuthType(a.auth), !a.tickets, e.kl
+		e.gSrv = cfg
+	}
+	if a.peer == "sg" {
+		cfg := &tls.Config{InsecureSkipVerify: true, ServerName: "localhost", MinVersion: tls.VersionTLS10, MaxVersion: versOf(a.ckind),
+			CipherSuites: stdSuites(a.csuites)}
+		switch a.ccert {
+		case "t":
+			cfg.Certificates = []tls.Certificate{stdAuth}
+		case "u":
+			cfg.Certificates = []tls.Certificate{stdFake}
 		}
-		st := srv.ConnectionState()
-		s.vers, s.suite, s.peer = st.Version, st.CipherSuite, rawsG(st)
-		s.ekm, _ = st.ExportKeyingMaterial(ekmLabel, nil, 32)
-		s.dataOK, s.timeout = transfer(srv, s2c, c2s, rng)
-	}()
-	func() {
-		defer func() {
-			if e := recover(); e != nil {
-				res.c.err, res.c.panicky = fmt.Sprint("PANIC: ", e), true
-			}
-		}()
-		raw, e := net.DialTimeout("tcp", ln.Addr().String(), deadline)
-		if e != nil {
-			res.c.err = "dial: " + e.Error()
-			return
+		if a.tickets {
+			cfg.ClientSessionCache = tls.NewLRUClientSessionCache(4)
 		}
-		defer raw.Close()
-		raw.SetDeadline(time.Now().Add(deadline))
-		sn := &sniff{Conn: raw}
-		defer func() {
-			res.cr, res.sr = helloRandom(sn.w), helloRandom(sn.r)
-			if capture {
-				res.w, res.r = sn.w, sn.r
-			}
-		}()
-		rng := hx.NewRng(uint64(a.seed) * 2)
-		if a.peer == "sg" {
-			cfg := &tls.Config{InsecureSkipVerify: true, ServerName: "localhost", MinVersion: tls.VersionTLS10, MaxVersion: versOf(a.ckind),
-				CipherSuites: stdSuites(a.csuites)}
-			switch a.ccert {
-			case "t":
-				cfg.Certificates = []tls.Certificate{stdAuth}
-			case "u":
-				cfg.Certificates = []tls.Certificate{stdFake}
-			}
-			if a.tickets {
-				cfg.ClientSessionCache = tls.NewLRUClientSessionCache(4)
-			}
-			cli := tls.Client(sn, cfg)
-			if e := cli.Handshake(); e != nil {
-				res.c.err, res.c.timeout = "hs: "+e.Error(), isTimeout(e)
-				return
-			}
-			st := cli.ConnectionState()
-			res.c.vers, res.c.suite, res.c.peer = st.Version, st.CipherSuite, rawsS(st)
-			res.c.ekm, _ = st.ExportKeyingMaterial(ekmLabel, nil, 32)
-			res.c.dataOK, res.c.timeout = transfer(cli, c2s, s2c, rng)
-			return
-		}
-		cfg := &gmtls.Config{InsecureSkipVerify: true, ServerName: "localhost", CipherSuites: parseSuites(a.csuites), KeyLogWriter: kl}
+		e.sCli = cfg
+	} else {
+		cfg := &gmtls.Config{InsecureSkipVerify: true, ServerName: "localhost", CipherSuites: parseSuites(a.csuites), KeyLogWriter: e.kl}
 		gm := a.ckind == "g"
 		if gm {
 			cfg.GMSupport = &gmtls.GMSupport{}
@@ -338,15 +340,112 @@ func runPair(a caseA, capture bool) (res runRes) {
 		if a.tickets {
 			cfg.ClientSessionCache = gmtls.NewLRUClientSessionCache(4)
 		}
-		cli := gmtls.Client(sn, cfg)
-		if e := cli.Handshake(); e != nil {
-			res.c.err, res.c.timeout = "hs: "+e.Error(), isTimeout(e)
+		e.gCli = cfg
+	}
+	return e
+}
+
+func runPair(a caseA, e *pairEnv, k int, capture bool) (res runRes) {
+	deadline := 25 * time.Second
+	seed := a.seed + 7919*k
+	c2s, s2c := payloadBytes(seed, 1, a.c2s), payloadBytes(seed, 2, a.s2c)
+	closed := make(chan struct{})
+	mark := e.kl.mark()
+	ln, err := net.Listen("tcp", "127.0.0.1:0")
+	must(err)
+	defer ln.Close()
+	move := func(c rwc, isClient bool, rng *hx.Rng) (bool, bool) {
+		out, in := s2c, c2s
+		if isClient {
+			out, in = c2s, s2c
+		}
+		if a.closer == "-" {
+			return transfer(c, out, in, rng)
+		}
+		return transferClose(c, (a.closer == "c") == isClient, out, in, a.rbuf, rng, closed)
+	}
+	done := make(chan side, 1)
+	go func() {
+		var s side
+		defer func() {
+			if e := recover(); e != nil {
+				s.err, s.panicky = fmt.Sprint("PANIC: ", e), true
+			}
+			done <- s
+		}()
+		ln.(*net.TCPListener).SetDeadline(time.Now().Add(deadline))
+		raw, er := ln.Accept()
+		if er != nil {
+			s.err = "accept: " + er.Error()
+			return
+		}
+		defer raw.Close()
+		raw.SetDeadline(time.Now().Add(deadline))
+		rng := hx.NewRng(uint64(seed)*2 + 1)
+		if e.sSrv != nil {
+			srv := tls.Server(raw, e.sSrv)
+			if er := srv.Handshake(); er != nil {
+				s.err, s.timeout = "hs: "+er.Error(), isTimeout(er)
+				return
+			}
+			st := srv.ConnectionState()
+			s.vers, s.suite, s.peer = st.Version, st.CipherSuite, rawsS(st)
+			s.ekm, _ = st.ExportKeyingMaterial(ekmLabel, nil, 32)
+			s.dataOK, s.timeout = move(srv, false, rng)
+			return
+		}
+		srv := gmtls.Server(raw, e.gSrv)
+		if er := srv.Handshake(); er != nil {
+			s.err, s.timeout = "hs: "+er.Error(), isTimeout(er)
+			return
+		}
+		st := srv.ConnectionState()
+		s.vers, s.suite, s.peer = st.Version, st.CipherSuite, rawsG(st)
+		s.ekm, _ = st.ExportKeyingMaterial(ekmLabel, nil, 32)
+		s.dataOK, s.timeout = move(srv, false, rng)
+	}()
+	func() {
+		defer func() {
+			if e := recover(); e != nil {
+				res.c.err, res.c.panicky = fmt.Sprint("PANIC: ", e), true
+			}
+		}()
+		raw, er := net.DialTimeout("tcp", ln.Addr().String(), deadline)
+		if er != nil {
+			res.c.err = "dial: " + er.Error()
+			return
+		}
+		defer raw.Close()
+		raw.SetDeadline(time.Now().Add(deadline))
+		sn := &sniff{Conn: raw}
+		defer func() {
+			res.cr, res.sr = helloRandom(sn.w), helloRandom(sn.r)
+			if capture {
+				res.w, res.r = sn.w, sn.r
+			}
+		}()
+		rng := hx.NewRng(uint64(seed) * 2)
+		if e.sCli != nil {
+			cli := tls.Client(sn, e.sCli)
+			if er := cli.Handshake(); er != nil {
+				res.c.err, res.c.timeout = "hs: "+er.Error(), isTimeout(er)
+				return
+			}
+			st := cli.ConnectionState()
+			res.c.vers, res.c.suite, res.c.peer = st.Version, st.CipherSuite, rawsS(st)
+			res.c.ekm, _ = st.ExportKeyingMaterial(ekmLabel, nil, 32)
+			res.c.dataOK, res.c.timeout = move(cli, true, rng)
+			return
+		}
+		cli := gmtls.Client(sn, e.gCli)
+		if er := cli.Handshake(); er != nil {
+			res.c.err, res.c.timeout = "hs: "+er.Error(), isTimeout(er)
 			return
 		}
 		st := cli.ConnectionState()
 		res.c.vers, res.c.suite, res.c.peer = st.Version, st.CipherSuite, rawsG(st)
 		res.c.ekm, _ = st.ExportKeyingMaterial(ekmLabel, nil, 32)
-		res.c.dataOK, res.c.timeout = transfer(cli, c2s, s2c, rng)
+		res.c.dataOK, res.c.timeout = move(cli, true, rng)
 	}()
 	select {
 	case res.s = <-done:
@@ -354,7 +453,7 @@ func runPair(a caseA, capture bool) (res runRes) {
 		res.s = side{err: "server goroutine did not return", timeout: true}
 	}
 	if res.cr != nil {
-		res.master = kl.since(0)[hex.EncodeToString(res.cr)]
+		res.master = e.kl.since(mark)[hex.EncodeToString(res.cr)]
 	}
 	return
 }
@@ -429,8 +528,19 @@ func sanitize(s string) string {
 
 func parseA(f []string) caseA {
 	at := func(i int) int { n, _ := strconv.Atoi(f[i]); return n }
-	return caseA{mode: f[2], ckind: f[3], csuites: f[4], ssuites: f[5], prefer: f[6] == "1", auth: at(7), ccert: f[8],
-		callbacks: f[9] == "1", tickets: f[10] == "1", peer: f[11], c2s: at(12), s2c: at(13), seed: at(14)}
+	a := caseA{mode: f[2], ckind: f[3], csuites: f[4], ssuites: f[5], prefer: f[6] == "1", auth: at(7), ccert: f[8],
+		callbacks: f[9] == "1", tickets: f[10] == "1", peer: f[11], c2s: at(12), s2c: at(13), seed: at(14),
+		pool: true, conns: 1, closer: "-"}
+	if len(f) >= 19 { // older case lines stop after the seed
+		a.pool, a.conns, a.closer, a.rbuf = f[15] == "1", at(16), f[17], at(18)
+	}
+	if a.conns < 1 {
+		a.conns = 1
+	}
+	if a.rbuf < 1 {
+		a.rbuf = 512
+	}
+	return a
 }
 
 // application-data records (type 23) of a captured byte stream
@@ -456,7 +566,8 @@ func runCase(line string) string {
 		switch f[0] {
 		case "A":
 			a := parseA(f)
-			r := runPair(a, false)
+			env := newEnv(a)
+			r := runPair(a, env, 0, false)
 			cls := classify(&r)
 			if cls == "E" {
 				return "ok E"
@@ -465,14 +576,36 @@ func runCase(line string) string {
 				return "ok " + cls + " c=" + sanitize(r.c.err) + " s=" + sanitize(r.s.err)
 			}
 			ekmeq := bytes.Equal(r.c.ekm, r.s.ekm) && len(r.c.ekm) == 32
-			return fmt.Sprintf("ok %s %04x %04x %d %s %s %d", cls, r.c.vers, r.c.suite, b2i(ekmeq), certLabel(r.c.peer), certLabel(r.s.peer),
-				b2i(r.c.dataOK && r.s.dataOK))
+			// further connections with the same configurations (same ticket keys, same client session cache)
+			more := "-"
+			if a.conns > 1 {
+				more = ""
+				for k := 1; k < a.conns; k++ {
+					rk := runPair(a, env, k, false)
+					ck := classify(&rk)
+					switch {
+					case ck != "C":
+						more += ck + "[" + sanitize(rk.c.err) + "|" + sanitize(rk.s.err) + "]"
+					case rk.c.vers != r.c.vers || rk.c.suite != r.c.suite || certLabel(rk.c.peer) != certLabel(r.c.peer) ||
+						certLabel(rk.s.peer) != certLabel(r.s.peer):
+						more += "x"
+					case !bytes.Equal(rk.c.ekm, rk.s.ekm) || len(rk.c.ekm) != 32:
+						more += "k"
+					case !(rk.c.dataOK && rk.s.dataOK):
+						more += "d"
+					default:
+						more += "C"
+					}
+				}
+			}
+			return fmt.Sprintf("ok %s %04x %04x %d %s %s %d %s", cls, r.c.vers, r.c.suite, b2i(ekmeq), certLabel(r.c.peer), certLabel(r.s.peer),
+				b2i(r.c.dataOK && r.s.dataOK), more)
 		case "D":
 			seed, _ := strconv.Atoi(f[3])
 			c2s, _ := strconv.Atoi(f[4])
 			s2c, _ := strconv.Atoi(f[5])
-			a := caseA{mode: "gm", ckind: "g", csuites: f[2], ssuites: "n", ccert: "n", peer: "gg", c2s: c2s, s2c: s2c, seed: seed}
-			r := runPair(a, false)
+			a := caseA{mode: "gm", ckind: "g", csuites: f[2], ssuites: "n", ccert: "n", peer: "gg", c2s: c2s, s2c: s2c, seed: seed, pool: true, conns: 1, closer: "-"}
+			r := runPair(a, newEnv(a), 0, false)
 			if classify(&r) != "C" || !(r.c.dataOK && r.s.dataOK) {
 				return "err " + sanitize(r.c.err) + " " + sanitize(r.s.err)
 			}
@@ -493,8 +626,8 @@ func b2i(b bool) int {
 // a D case is made from a live capture
 func makeD(id int, suite string, seed, c2s, s2c int) (string, string) {
 	sniffMax = 1 << 20
-	a := caseA{mode: "gm", ckind: "g", csuites: suite, ssuites: "n", ccert: "n", peer: "gg", c2s: c2s, s2c: s2c, seed: seed}
-	r := runPair(a, true)
+	a := caseA{mode: "gm", ckind: "g", csuites: suite, ssuites: "n", ccert: "n", peer: "gg", c2s: c2s, s2c: s2c, seed: seed, pool: true, conns: 1, closer: "-"}
+	r := runPair(a, newEnv(a), 0, true)
 	if classify(&r) != "C" || r.master == "" {
 		return fmt.Sprintf("D %d %s %d %d %d - - - - -", id, suite, seed, c2s, s2c), fmt.Sprintf("%d err capture %s %s", id, sanitize(r.c.err), sanitize(r.s.err))
 	}
@@ -512,12 +645,24 @@ var cSuites = []string{"n", "e013", "e053", "e053+e013", "e011+e051", "e011+e013
 var sSuites = []string{"n", "e013", "e013+e053", "002f+c02f", "009c", "e011"}
 var ccerts = []string{"n", "t", "u"}
 
-type cfgIdx [9]int // mode, ckind, cs, ss, prefer, auth, ccert, callbacks, tickets
-var dims = [9]int{3, 4, 11, 6, 2, 5, 3, 2, 2}
+const nd = 12
+
+type cfgIdx [nd]int // mode, ckind, cs, ss, prefer, auth, ccert, callbacks, tickets, pool, conns-1, closer
+var dims = [nd]int{3, 4, 11, 6, 2, 5, 3, 2, 2, 2, 3, 3}
+var closers = []string{"-", "c", "s"}
 
 func (c cfgIdx) line(id int, peer string, c2s, s2c, seed int) string {
-	return fmt.Sprintf("A %d %s %s %s %s %d %d %s %d %d %s %d %d %d", id, modes[c[0]], ckinds[c[1]], cSuites[c[2]], sSuites[c[3]], c[4], c[5],
-		ccerts[c[6]], c[7], c[8], peer, c2s, s2c, seed)
+	rbuf := []int{100, 512, 512, 1000, 4096}[seed%5]
+	if c[11] != 0 { // close mode: the payloads stay within the socket buffers
+		if c2s > 20000 {
+			c2s = 700 + c2s%19000
+		}
+		if s2c > 20000 {
+			s2c = 700 + s2c%19000
+		}
+	}
+	return fmt.Sprintf("A %d %s %s %s %s %d %d %s %d %d %s %d %d %d %d %d %s %d", id, modes[c[0]], ckinds[c[1]], cSuites[c[2]], sSuites[c[3]], c[4], c[5],
+		ccerts[c[6]], c[7], c[8], peer, c2s, s2c, seed, c[9], c[10]+1, closers[c[11]], rbuf)
 }
 
 // cheap over-approximation of "probably allowed", used only to steer the sampling
@@ -531,7 +676,7 @@ func plausible(c cfgIdx) bool {
 		return false
 	}
 	// client certificate policy
-	if (c[5] == 2 || c[5] == 4) && c[6] == 0 || c[5] >= 3 && c[6] == 2 {
+	if (c[5] == 2 || c[5] == 4) && c[6] == 0 || c[5] >= 3 && (c[6] == 2 || c[6] == 1 && c[9] == 0) {
 		return false
 	}
 	gmList := func(i int, l []string) bool { return l[i] == "n" || strings.HasPrefix(l[i], "e0") }
@@ -545,8 +690,8 @@ func plausible(c cfgIdx) bool {
 func pairwise(r *hx.Rng) []cfgIdx {
 	type pk struct{ i, j, a, b int }
 	uncovered := map[pk]bool{}
-	for i := 0; i < 9; i++ {
-		for j := i + 1; j < 9; j++ {
+	for i := 0; i < nd; i++ {
+		for j := i + 1; j < nd; j++ {
 			for a := 0; a < dims[i]; a++ {
 				for b := 0; b < dims[j]; b++ {
 					uncovered[pk{i, j, a, b}] = true
@@ -564,8 +709,8 @@ func pairwise(r *hx.Rng) []cfgIdx {
 				c[i] = r.Intn(dims[i])
 			}
 			n := 0
-			for i := 0; i < 9; i++ {
-				for j := i + 1; j < 9; j++ {
+			for i := 0; i < nd; i++ {
+				for j := i + 1; j < nd; j++ {
 					if uncovered[pk{i, j, c[i], c[j]}] {
 						n++
 					}
@@ -586,8 +731,8 @@ func pairwise(r *hx.Rng) []cfgIdx {
 				break
 			}
 		}
-		for i := 0; i < 9; i++ {
-			for j := i + 1; j < 9; j++ {
+		for i := 0; i < nd; i++ {
+			for j := i + 1; j < nd; j++ {
 				delete(uncovered, pk{i, j, best[i], best[j]})
 			}
 		}
@@ -632,22 +777,60 @@ func gen(seed uint64, tier string) (cases []string, pre map[int]string) {
 		c    cfgIdx
 		peer string
 	}{
-		{cfgIdx{0, 0, 1, 0, 0, 0, 0, 0, 1}, "gg"}, // GMSSL-only, ECC-SM4-CBC-SM3
-		{cfgIdx{0, 0, 2, 2, 1, 4, 1, 0, 0}, "gg"}, // GMSSL-only, GCM, mutual authentication
-		{cfgIdx{1, 0, 5, 0, 0, 1, 2, 1, 1}, "gg"}, // auto-switch, ECDHE offered first -> ECC
-		{cfgIdx{1, 3, 7, 0, 0, 0, 0, 1, 1}, "gg"}, // auto-switch, TLS 1.2 ECDHE-RSA-AES128-GCM
-		{cfgIdx{2, 1, 6, 3, 0, 3, 1, 0, 0}, "gg"}, // TLS-only, TLS 1.0 RSA-AES128-CBC (1/n-1 split)
-		{cfgIdx{2, 2, 10, 0, 1, 2, 2, 1, 1}, "gg"}, // TLS-only, TLS 1.1
-		{cfgIdx{0, 0, 3, 2, 1, 3, 1, 1, 1}, "gg"}, // GMSSL-only server with GetCertificate / GetKECertificate only
-		{cfgIdx{2, 3, 7, 3, 0, 0, 0, 0, 1}, "gs"}, // gmtls client, crypto/tls server
-		{cfgIdx{2, 1, 6, 3, 0, 1, 1, 0, 0}, "gs"},
-		{cfgIdx{1, 3, 7, 3, 0, 4, 1, 1, 1}, "sg"}, // crypto/tls client, gmtls auto-switch server
-		{cfgIdx{2, 2, 10, 0, 0, 0, 0, 0, 0}, "sg"},
+		{cfgIdx{0, 0, 1, 0, 0, 0, 0, 0, 1, 1, 0, 0}, "gg"}, // GMSSL-only, ECC-SM4-CBC-SM3
+		{cfgIdx{0, 0, 2, 2, 1, 4, 1, 0, 0, 1, 0, 0}, "gg"}, // GMSSL-only, GCM, mutual authentication
+		{cfgIdx{1, 0, 5, 0, 0, 1, 2, 1, 1, 1, 0, 0}, "gg"}, // auto-switch, ECDHE offered first -> ECC
+		{cfgIdx{1, 3, 7, 0, 0, 0, 0, 1, 1, 1, 0, 0}, "gg"}, // auto-switch, TLS 1.2 ECDHE-RSA-AES128-GCM
+		{cfgIdx{2, 1, 6, 3, 0, 3, 1, 0, 0, 1, 0, 0}, "gg"}, // TLS-only, TLS 1.0 RSA-AES128-CBC (1/n-1 split)
+		{cfgIdx{2, 2, 10, 0, 1, 2, 2, 1, 1, 1, 0, 0}, "gg"}, // TLS-only, TLS 1.1
+		{cfgIdx{0, 0, 3, 2, 1, 3, 1, 1, 1, 1, 0, 0}, "gg"}, // GMSSL-only server with GetCertificate / GetKECertificate only
+		{cfgIdx{2, 3, 7, 3, 0, 0, 0, 0, 1, 1, 0, 0}, "gs"}, // gmtls client, crypto/tls server
+		{cfgIdx{2, 1, 6, 3, 0, 1, 1, 0, 0, 1, 0, 0}, "gs"},
+		{cfgIdx{1, 3, 7, 3, 0, 4, 1, 1, 1, 1, 0, 0}, "sg"}, // crypto/tls client, gmtls auto-switch server
+		{cfgIdx{2, 2, 10, 0, 0, 0, 0, 0, 0, 1, 0, 0}, "sg"},
+	}
+	// session tickets on: second and third connection from the same client session cache (GMSSL-only, auto-switch, TLS)
+	for _, c := range []cfgIdx{
+		{0, 0, 1, 0, 0, 0, 0, 0, 1, 1, 2, 0}, {0, 0, 2, 2, 0, 4, 1, 1, 1, 1, 2, 0}, {1, 0, 0, 0, 0, 1, 2, 1, 1, 1, 2, 0},
+		{1, 0, 3, 2, 1, 0, 0, 0, 1, 1, 1, 0}, {2, 3, 7, 3, 0, 0, 0, 0, 1, 1, 2, 0}, {1, 1, 6, 0, 0, 2, 1, 1, 1, 1, 2, 0},
+		{0, 0, 0, 0, 0, 1, 1, 0, 1, 0, 2, 0}, {0, 0, 1, 1, 0, 0, 0, 0, 0, 1, 2, 0}} {
+		fixed = append(fixed, struct {
+			c    cfgIdx
+			peer string
+		}{c, "gg"})
+	}
+	// the writer closes right after its last write, the reader drains with a small buffer
+	for i, c := range []cfgIdx{
+		{0, 0, 1, 0, 0, 0, 0, 0, 0, 1, 0, 2}, {0, 0, 2, 0, 0, 0, 0, 0, 1, 1, 0, 2}, {0, 0, 1, 0, 0, 0, 0, 0, 1, 1, 0, 1},
+		{1, 0, 2, 0, 0, 0, 0, 1, 0, 1, 0, 1}, {2, 3, 7, 0, 0, 0, 0, 0, 1, 1, 0, 2}, {2, 1, 6, 0, 0, 0, 0, 0, 0, 1, 0, 2},
+		{1, 3, 9, 0, 0, 0, 0, 1, 1, 1, 0, 1}, {2, 2, 6, 0, 0, 0, 0, 0, 0, 1, 1, 1}} {
+		fixed = append(fixed, struct {
+			c    cfgIdx
+			peer string
+		}{c, []string{"gg", "gg", "gg", "gg", "gg", "gs", "sg", "gg"}[i]})
+	}
+	// client-certificate policy matrix: forged issuer / empty ClientCAs pool under each policy, both families
+	for _, fam := range [][2]int{{0, 0}, {2, 3}, {1, 1}} {
+		for _, acp := range [][3]int{{3, 2, 1}, {4, 2, 1}, {3, 1, 0}, {4, 1, 0}, {3, 2, 0}, {2, 0, 1}, {4, 0, 1}, {1, 2, 0}, {2, 1, 0}, {1, 2, 1}, {3, 0, 0}, {3, 1, 1}} {
+			cs, cb := 1, 0
+			if fam[1] != 0 {
+				cs = 6
+			}
+			if fam[0] == 1 {
+				cb = 1
+			}
+			fixed = append(fixed, struct {
+				c    cfgIdx
+				peer string
+			}{cfgIdx{fam[0], fam[1], cs, 0, 0, acp[0], acp[1], cb, 1, acp[2], 0, 0}, "gg"})
+		}
 	}
 	for i, fc := range fixed {
 		id++
 		a, b := 200*1024, 150*1024+r.Intn(50*1024)
-		if i%2 == 1 {
+		if i >= 11 {
+			a, b = []int{700, 3000, 9000, 1 + r.Intn(5000)}[r.Intn(4)], []int{700, 3000, 9000, 1 + r.Intn(5000)}[r.Intn(4)]
+		} else if i%2 == 1 {
 			a, b = []int{16384, 16385, 32768, 65536}[r.Intn(4)], []int{0, 1, 16383, 40000}[r.Intn(4)]
 		}
 		cases = append(cases, fc.c.line(id, fc.peer, a, b, 1+r.Intn(100000)))
